@@ -287,6 +287,8 @@ class C15(CoordMixin, Prop):
                 break
             prev = st
         key = tuple(case["lines"])
+        self.trig_seen = getattr(self, "trig_seen", 0) + (trig_at is not None)
+        self.oracle_runs = getattr(self, "oracle_runs", 0) + 1
         self._attr[key] = bool(out) and all(v.clause in EXCUSABLE for v in out) and trig_at is not None \
             and trig_at <= min(v.at for v in out)
         return out
